@@ -60,4 +60,11 @@ def layoutFamilies : List (List (Slot F64)) :=
     [(K [98], D 1), (K [99], D 2), (K [116], D 3), (K [97], D 4), (K [100], D 5)],
     [(.tuple false [D 0, K [97]], .tuple true [D 1]), (.struct [K [97], D 1, .nil, .nil] [], K [98]), (K [97], S [])] ]
 
+/-- six small integers (27 16 23 56 0 55) forming one probe cluster of capacity 16 in which a key from an earlier bucket
+    evicts a resident whose successor shares the resident's home bucket: the displaced key must travel on with ITS OWN
+    hash (struct.c `hash = otherhash;`) for the layout to be independent of the insertion order -/
+def clusterFamily : List (Slot F64) :=
+  [(D 0x403B000000000000, D 1), (D 0x4030000000000000, D 2), (D 0x4037000000000000, D 3),
+   (D 0x404C000000000000, D 4), (D 0, D 5), (D 0x404B800000000000, D 6)]
+
 end JanetModel.Value
